@@ -46,7 +46,7 @@ from typing import Dict, List, Optional, Set
 from ..cfg import cfg_of
 from ..flow import defuse, names_in
 from ..guards import path_conditions, src
-from ..index import AnalysisError, FuncInfo, Index, call_name, dotted, enclosing_stmt, walk_no_nested
+from ..index import AnalysisError, FuncInfo, Index, call_name, dotted, enclosing_stmt, parents, walk_no_nested
 from ..report import Results
 
 PP = "jax2onnx/converter/ir_postprocess.py"
@@ -640,6 +640,7 @@ def run(res: Results, idx: Index, tier: str) -> None:
     res.rule("R-C08k", "size-1 constants are left out of the refresh's broadcast merge only when their rank cannot lift the result's rank", floor=1)
     rule_k(res, idx)
     rule_l(res, idx)
+    rule_m(res, idx)
     res.rule("R-C08j", "the shape stamped on a plugin-emitted Transpose output is the operand's shape gathered through the permutation", floor=8)
     rule_j(res, idx)
 
@@ -983,3 +984,62 @@ def rule_l(res: Results, idx: Index) -> None:
                 else:
                     res.ok("R-C08l", site, key, f"permutation starts from the {names_[next(iter(xr))]} layout", fi.qualname)
     res.analysed["permuted_shape_declarations"] = n
+
+
+# ---------------------------------------------------------------------------------------------- R-C08m
+def rule_m(res: Results, idx: Index) -> None:
+    """A fold that removes a Transpose / Reshape pair around a chain of pass-through nodes leaves those nodes in the graph,
+    now fed with the un-transposed / un-reshaped value: their outputs have another shape than the annotation they carry.
+    Every such fold therefore re-derives the annotations of the nodes it keeps (`_refresh_elementwise_output_shape` over the
+    kept list) — the sibling folds of the same pass do; one that does not leaves a stale shape that a later pass trusts
+    (an "identity" Reshape is deleted, the graph output changes shape and element order)."""
+    res.rule("R-C08m", "a fold that keeps pass-through nodes between the removed pair refreshes the annotations of the kept nodes", floor=2)
+    from ..flow import defuse, names_in
+    m = idx.module(OPT)
+    n = 0
+    for fi in m.funcs.values():
+        kept: Dict[str, List[ast.Call]] = {}
+        for c in walk_no_nested(fi.node):
+            if isinstance(c, ast.Call) and isinstance(c.func, ast.Attribute) and c.func.attr == "append" and isinstance(c.func.value, ast.Name):
+                conds = [p_ for p_ in parents(c) if isinstance(p_, ast.If)]
+                if any(any(isinstance(x, ast.Call) and (call_name(x) or "") in ("_is_first_input_passthrough", "_is_elementwise_node") for x in ast.walk(p_.test)) for p_ in conds):
+                    kept.setdefault(c.func.value.id, []).append(c)
+        if not kept:
+            continue
+        du = defuse(fi.node)
+        for L, apps in sorted(kept.items()):
+            all_apps = [c for c in walk_no_nested(fi.node) if isinstance(c, ast.Call) and isinstance(c.func, ast.Attribute) and c.func.attr == "append" and isinstance(c.func.value, ast.Name) and c.func.value.id == L]
+            if len(all_apps) != len(apps):
+                continue    # the list also collects other nodes (the removed pair itself): a trace list, not the kept chain
+            inits = [st for st in walk_no_nested(fi.node) if isinstance(st, (ast.Assign, ast.AnnAssign)) and any(isinstance(t, ast.Name) and t.id == L for t in (st.targets if isinstance(st, ast.Assign) else [st.target]))
+                     and st.lineno < apps[0].lineno]
+            if not inits:
+                continue
+            init = max(inits, key=lambda st: st.lineno)
+            block = getattr(init, "parent", None)
+            if block is None:
+                continue
+            sub = [x for x in ast.walk(block) if getattr(x, "lineno", 0) >= init.lineno]
+            removes = [c for c in sub if isinstance(c, ast.Call) and (call_name(c) or "").endswith("graph.remove")]
+            if not removes:
+                continue
+            # is L what the fold keeps?  (a list that is itself removed — `graph.remove(chain_nodes)` — is not)
+            if any(any(isinstance(a, ast.Name) and a.id == L for a in c.args) for c in removes):
+                continue
+            n += 1
+            key = f"{OPT}::{fi.qualname}::kept-nodes::{L}"
+            site = f"{OPT}:{removes[0].lineno}"
+            ok = None
+            for lp in sub:
+                if not isinstance(lp, ast.For):
+                    continue
+                dep = du.closure(names_in(lp.iter)) | names_in(lp.iter)
+                if L in dep and any(isinstance(c, ast.Call) and (call_name(c) or "") == "_refresh_elementwise_output_shape" for c in ast.walk(lp)):
+                    ok = lp
+                    break
+            if ok is not None:
+                res.ok("R-C08m", site, key, f"the kept nodes `{L}` are refreshed at line {ok.lineno}", fi.qualname)
+            else:
+                res.violation("R-C08m", site, key, f"the fold removes the surrounding pair (line {removes[0].lineno}) and keeps the pass-through nodes collected in `{L}`, but never calls "
+                              "_refresh_elementwise_output_shape on them: their outputs keep the pre-fold (transposed / reshaped) annotation, which later passes trust", fi.qualname)
+    res.analysed["folds_with_kept_nodes"] = n
